@@ -6,7 +6,7 @@ PROPERTY = dict(
                '(G2) what the structure signature covers: equal exactly when the directory mode, every child NAME and MODE and every sub-signature agree - size, timestamps, inode and device of a child do not enter (content-only changes do not trigger).',
     level_note='Trusted: clang-14 -O1 IR of BuildSystem.cpp, ir2c (validated per query), CBMC 6.11 + MiniSat/CaDiCaL; llvm::hash_* is an ideal hash (transcript); depth > 1 follows by induction on the recursion step together with G1/G2 applied at each level. '
                'NOT decided: that a real file-system change changes a node value / listing (C13 decides FileInfo, the directory-contents task and its validity are not encoded), exclusion patterns (filters are carried, fnmatch is not encoded), re-execution itself (C01).',
-    bounds='one directory with 1 child (quick) or 1..2 children (thorough, G1/G2); child names 1 byte; values 2 opaque bytes (tree) or full encoded file records with symbolic 64-bit fields (structure, recursion)',
+    bounds='one directory with 1 child (two children: no verdict in 40 min, not part of any tier); child names 1 byte; full encoded file records with symbolic 64-bit fields; sub-signatures 2 bytes',
     outside='DirectoryContentsTask / FilteredDirectoryContentsTask, fnmatch filters, the non-file fallback branch of the structure signature, real hashing (collisions)',
     stubs='TaskInterface::request / complete -> recorders; llvm::sys::path::append -> POSIX join; llvm::hash_value / hash_combine / hash_combine_range -> ideal hash (position in a per-task transcript)',
     assumptions=['the hash is collision-free on the inputs compared (ideal-hash reading)'],
@@ -31,8 +31,8 @@ SIG = dict(opt_flags=['-disable-loop-idiom-all'],   # keep the recorders' byte l
            stub_virtual=['SignatureTask(5start|12provideValue|17providePriorValue)', '^_ZN7llbuild4core4Task'], allow_external=['^_ZTV'],
            assert_external=['.'], unwind=34, unwind_loops=[('harness_sig|encInfo|stub_complete|intern|stub_hash', 100)], copy_unwind=100, timeout=600, cbmc_flags=['--object-bits', '10'])
 OBLIGATIONS = [
-    dict(SIG, name='G1.tree-signature', params_quick=[{'VF_STRUCT': 0, 'VF_NC': 1}], params_thorough=[{'VF_STRUCT': 0, 'VF_NC': n} for n in (1, 2)]),
-    dict(SIG, name='G2.structure-signature', params_quick=[{'VF_STRUCT': 1, 'VF_NC': 1}], params_thorough=[{'VF_STRUCT': 1, 'VF_NC': n} for n in (1, 2)]),
+    dict(SIG, name='G1.tree-signature', params_quick=[{'VF_STRUCT': 0, 'VF_NC': 1}], timeout=900),   # two children: no verdict in 40 min (measured), not part of any tier
+    dict(SIG, name='G2.structure-signature', params_quick=[{'VF_STRUCT': 1, 'VF_NC': 1}], timeout=900),
     dict(COMMON, name='G3.tree-recursion', params_quick=[{'VF_STRUCT': 0}], timeout=900),
     dict(COMMON, name='G3.structure-recursion', params_quick=[{'VF_STRUCT': 1}], timeout=900),
 ]
